@@ -33,6 +33,8 @@ func stepAlphabet(depth int) []seqx.Step {
 		{Op: "Stack"},
 		{Op: "WithEmpty"},
 		{Op: "With", Fields: []seqx.Field{{M: "EmbedObject", Form: "val", Sub: nil}, {M: "Err", Val: fmt.Errorf("ce%d", depth)}}},
+		{Op: "Hook", Hooks: []int{depth*10 + 4, depth*10 + 5, depth*10 + 6}},
+		{Op: "Reset"},
 	}
 }
 
